@@ -27,15 +27,15 @@ func (h H) value() string     { return rig.UnHex(h[1]) }
 
 // ReqSpec is the client's request as written on the wire.
 type ReqSpec struct {
-	Method   string `json:"method"`   // hex
-	Target   string `json:"target"`   // hex: the request target (origin form), byte for byte
-	Host     string `json:"host"`     // hex: Host header value
-	Headers  []H    `json:"headers"`  // in wire order, names verbatim
-	Token    string `json:"token"`    // bearer token ("" = no Authorization header); written as the last header line
-	BodyLen  int    `json:"bodyLen"`  // body = PRNG(bodySeed) bytes
+	Method   string `json:"method"`  // hex
+	Target   string `json:"target"`  // hex: the request target (origin form), byte for byte
+	Host     string `json:"host"`    // hex: Host header value
+	Headers  []H    `json:"headers"` // in wire order, names verbatim
+	Token    string `json:"token"`   // bearer token ("" = no Authorization header); written as the last header line
+	BodyLen  int    `json:"bodyLen"` // body = PRNG(bodySeed) bytes
 	BodySeed int64  `json:"bodySeed"`
-	Chunked  bool   `json:"chunked"`  // send the body chunked (pieces of 1000 bytes) instead of Content-Length
-	HasBody  bool   `json:"hasBody"`  // false: no Content-Length and no body at all
+	Chunked  bool   `json:"chunked"`            // send the body chunked (pieces of 1000 bytes) instead of Content-Length
+	HasBody  bool   `json:"hasBody"`            // false: no Content-Length and no body at all
 	Proto    string `json:"proto,omitempty"`    // "" = raw HTTP/1.1 bytes; "h2" = an HTTP/2 client (TLS + h2 to the same handler chain)
 	Streamed bool   `json:"streamed,omitempty"` // h2: the body is streamed without a declared length (no content-length)
 }
@@ -173,14 +173,14 @@ type SeenClient struct {
 
 // Obs is everything observed for one case.
 type Obs struct {
-	NUp      int         `json:"nUp"` // requests that reached any upstream under this case id
-	Up       *SeenUp     `json:"up,omitempty"`
-	Client   *SeenClient `json:"client,omitempty"`
-	Err      string      `json:"err,omitempty"`
-	BodyErr  string      `json:"bodyErr,omitempty"`
-	RawUp    http.Header `json:"-"`
+	NUp      int           `json:"nUp"` // requests that reached any upstream under this case id
+	Up       *SeenUp       `json:"up,omitempty"`
+	Client   *SeenClient   `json:"client,omitempty"`
+	Err      string        `json:"err,omitempty"`
+	BodyErr  string        `json:"bodyErr,omitempty"`
+	RawUp    http.Header   `json:"-"`
 	RawResp  *e2e.Response `json:"-"`
-	UpBytes0 int64       `json:"-"`
+	UpBytes0 int64         `json:"-"`
 }
 
 // Volatile headers, canonicalised away EXPLICITLY (listed in the evidence).
